@@ -13,8 +13,10 @@ built from a sequence of *items*; an item is a leaf template or a container
 template (DO / IF / SELECT CASE) with another template in its hole (nesting
 depth 2).  Host ``m`` puts the templates into the main program (arrays with
 literal / named-constant bounds), host ``s`` puts them into a module
-subroutine ``twork`` whose arrays are assumed-shape dummies (so the reader
-sees ArrayType.Extent and has to use LBOUND/SIZE).
+subroutine ``twork`` whose 1-based arrays are assumed-shape dummies (so the
+reader sees ArrayType.Extent and has to use LBOUND/SIZE) and whose other arrays
+are explicit-shape dummies b(0:m), c(2:5), m3(0:2,2); host ``t`` is host ``s``
+with assumed-shape dummies that have a lower bound: b(0:), c(2:), m3(0:,:).
 
 Every template has a stable key ``family.variant``; a program key is
 ``<host>:<item>+<item>...`` with ``item = tmpl`` or ``tmpl[inner]``.
@@ -28,7 +30,8 @@ import re
 # ---------------------------------------------------------------------------
 # variables
 # ---------------------------------------------------------------------------
-#: name -> (declaration in the main program, declaration as dummy of twork)
+#: name -> (declaration in the main program, declaration as dummy of twork on
+#: host s, the same on host t)
 VARS = {
     "i": ("integer :: i", "integer, intent(inout) :: i"),
     "j": ("integer :: j", "integer, intent(inout) :: j"),
@@ -38,17 +41,22 @@ VARS = {
     "y": ("real :: y", "real, intent(inout) :: y"),
     "l2": ("logical :: l2", "logical, intent(inout) :: l2"),
     "a": ("real :: a(3)", "real, intent(inout) :: a(:)"),
-    "b": ("real :: b(0:m)", "real, intent(inout) :: b(0:)"),
-    "c": ("real :: c(2:5)", "real, intent(inout) :: c(2:)"),
+    "b": ("real :: b(0:m)", "real, intent(inout) :: b(0:m)",
+          "real, intent(inout) :: b(0:)"),
+    "c": ("real :: c(2:5)", "real, intent(inout) :: c(2:5)",
+          "real, intent(inout) :: c(2:)"),
     "ia": ("integer :: ia(3)", "integer, intent(inout) :: ia(:)"),
     "la": ("logical :: la(3)", "logical, intent(inout) :: la(:)"),
     "m2": ("real :: m2(3,2)", "real, intent(inout) :: m2(:,:)"),
-    "m3": ("real :: m3(0:2,2)", "real, intent(inout) :: m3(0:,:)"),
+    "m3": ("real :: m3(0:2,2)", "real, intent(inout) :: m3(0:2,2)",
+           "real, intent(inout) :: m3(0:,:)"),
     # declarations the reader does not support (kept verbatim) - on purpose
     "d": ("real :: d(0:m+1)", "real, intent(inout) :: d(0:)"),
     "e": ("real :: e(-1:1)", "real, intent(inout) :: e(-1:)"),
     "s": ("type(tt) :: s", "type(tt), intent(inout) :: s"),
 }
+#: arrays whose dummy declaration differs between host s and host t
+LB_VARS = ("b", "c", "m3")
 #: inputs: name -> (declaration, dummy declaration, domain as Fortran loop)
 INPUTS = {
     "iv": ("integer :: iv", "integer, intent(in) :: iv", (0, 2)),
@@ -366,7 +374,7 @@ _t("int.spread", "", "m2(:,:) = spread(a, 2, 2)\nm2 = reshape((/ 1.0, 2.0, 3.0, 
 _t("int.huge", "", "k = min(huge(k), isel)\nl2 = tiny(x) > 0.0\nj = kind(x) * 10 + kind(k)")
 _t("int.char", "", "k = ichar(ch)\nl2 = lge(ch, 'b')\nj = len(ch) * 10 + index('abc', ch)")
 _t("int.bits", "", "k = iand(isel + 8, 6)\nj = ior(n, 4)\ni = ishft(n, 2)")
-_t("int.vsize", "S", "k = size(vv)\nj = ubound(vv, 1)\ni = lbound(vv, dim=1)")
+_t("int.vsize", "S", "vv(:) = 0.5\nk = size(vv)\nj = ubound(vv, 1)\ni = lbound(vv, dim=1)")
 
 # ---- scalar expressions ---------------------------------------------------
 _t("expr.sub", "ck", "x = x - (y - 1.0)\nk = isel - (n - k)")
@@ -533,7 +541,7 @@ def build(spec):
     words = _words("\n".join(body))
     used = [v for v in VARS if v in words]
     locs = [v for v in LOCALS if v in words]
-    if "vv" in locs and host != "s":
+    if "vv" in locs and host == "m":
         raise ValueError("vv needs host s")
     inputs = [v for v in INPUTS if v in words and v != "iv"]
     if any(v in DATA_VARS for v in used):
@@ -550,23 +558,24 @@ def build(spec):
 
     # ---- module ----------------------------------------------------------
     mod = ["module tmod", "  implicit none"]
-    if host == "s" and "m" in words:
+    sub_m = host != "m" and ("m" in words or (host == "s" and "b" in used))
+    if sub_m:
         mod.append("  integer, parameter :: m = 2")
     for hlp in helpers:
         if HELPERS[hlp][0] in ("type", "var"):
             mod += _indent(HELPERS[hlp][1].split("\n"), 2)
     procs = [h for h in helpers if HELPERS[h][0] == "proc"]
-    if procs or host == "s":
+    if procs or host != "m":
         mod.append("contains")
     for hlp in procs:
         mod += _indent(HELPERS[hlp][1].split("\n"), 2)
-    if host == "s":
+    if host != "m":
         args = inputs + used
         mod.append(f"  subroutine twork({', '.join(args)})")
         for name in inputs:
             mod.append("    " + INPUTS[name][1])
         for name in used:
-            mod.append("    " + VARS[name][1])
+            mod.append("    " + VARS[name][-1 if host == "t" else 1])
         for name in locs:
             mod.append("    " + LOCALS[name])
         mod += _indent(body, 4)
@@ -577,13 +586,13 @@ def build(spec):
 
     # ---- main program ----------------------------------------------------
     main = ["program tprog"]
-    if host == "s":
+    if host != "m":
         main.append("  use tmod")
     elif helpers:
         names = [h for h in helpers]
         main.append("  use tmod, only: " + ", ".join(names))
     main.append("  implicit none")
-    if need_m and not (host == "s" and "m" in words):
+    if need_m and not sub_m:
         main.append("  integer, parameter :: m = 2")
     for name in inputs:
         main.append("  " + INPUTS[name][0])
@@ -630,7 +639,7 @@ def build(spec):
         depth -= 1
         main.append("  " * depth + "end do")
     main.append("end program tprog")
-    if len(mod) > 3 or host == "s":
+    if len(mod) > 3 or host != "m":
         source = "\n".join(mod + main) + "\n"
     else:
         source = "\n".join(main) + "\n"
@@ -649,7 +658,11 @@ def _hosts(name):
     flags = TEMPLATES[name]["flags"]
     if "S" in flags:
         return ["s"]
-    return ["m", "s"] if "s" in flags else ["m"]
+    if "s" not in flags:
+        return ["m"]
+    if _words(TEMPLATES[name]["text"]) & set(LB_VARS):
+        return ["m", "s", "t"]
+    return ["m", "s"]
 
 
 def _both(names):
